@@ -77,7 +77,12 @@ pub fn hss_expand_aux_data<'a, H: HashChain>(
 
     let mut aux_data = aux_data.unwrap();
 
-    if aux_data[AUX_DATA_MARKER] == NO_AUX_DATA {
+    if !hss_is_aux_data_used(aux_data) {
+        return None;
+    }
+
+    // Too short to hold the level word
+    if aux_data.len() < core::mem::size_of::<AuxLevel>() {
         return None;
     }
 
@@ -99,9 +104,14 @@ pub fn hss_expand_aux_data<'a, H: HashChain>(
         layer_sizes[index] = (H::OUTPUT_SIZE as usize) << index;
     }
 
+    // Too short to hold the levels announced by the level word
+    let len_aux_data = index + layer_sizes.iter().sum::<usize>();
+    if aux_data.len() < len_aux_data {
+        return None;
+    }
+
     // Check if data is valid
     if let Some(seed) = seed {
-        let len_aux_data = index + layer_sizes.iter().sum::<usize>();
         let (aux_data, aux_data_mac) = aux_data.split_at(len_aux_data);
 
         let key = compute_seed_derive::<H>(seed);
@@ -150,7 +160,9 @@ pub fn hss_store_aux_marker(aux_data: &mut [u8], aux_level: AuxLevel) {
 }
 
 pub fn hss_is_aux_data_used(aux_data: &[u8]) -> bool {
-    aux_data[AUX_DATA_MARKER] != NO_AUX_DATA
+    aux_data
+        .get(AUX_DATA_MARKER)
+        .is_some_and(|&marker| marker != NO_AUX_DATA)
 }
 
 pub fn hss_save_aux_data<H: HashChain>(
